@@ -213,6 +213,14 @@ func MakeFiller(p *Plan, src string) node.Filler {
 			tx.From = nonZeroBytes(r, 20)
 			tx.To = nonZeroBytes(r, 20)
 			tx.Input = nonZeroBytes(r, 4+r.IntN(40))
+			if c.PoolTxPct > 0 && len(addrs) > 0 {
+				if r.IntN(100) < c.PoolTxPct {
+					tx.To = addrs[r.IntN(len(addrs))]
+				}
+				if r.IntN(100) < c.PoolTxPct {
+					tx.From = addrs[r.IntN(len(addrs))]
+				}
+			}
 			if c.Distinct {
 				tx.Type = 2
 				tx.Nonce = 1 + r.Uint64N(1<<40)
